@@ -48,8 +48,8 @@ def check_carry(P, R, tu):
         R.saw(fn)
         x = fn.params[xi]["d"]
         xn = fn.params[xi]["n"]
-        loops = [l for l in fn.walk() if l.get("k") in ("WhileStmt", "DoStmt")]
-        fw = [l for l in loops if l["k"] == "WhileStmt"]
+        loops = [l for l in fn.walk() if l.get("k") in ("WhileStmt", "DoStmt", "ForStmt")]
+        fw = [l for l in loops if l["k"] in ("WhileStmt", "ForStmt")]       # test first: `while`, or `for` with the advance in its head
         bw = [l for l in loops if l["k"] == "DoStmt"]
         if len(fw) != 1 or len(bw) != 1:
             raise AnalysisBroken("%s: carry loops of %s not recognised (%d forward, %d backward)" % (rule, name, len(fw), len(bw)))
@@ -69,7 +69,7 @@ def check_carry(P, R, tu):
                       "shortest period)" % (name, lo, hi, least))
         # ---- forward loop
         w = fw[0]
-        cond = _u(w["c"][0])
+        cond = _u(w["c"][0] if w["k"] == "WhileStmt" else w["c"][1])
         okf = False
         lenvar = None
         if cond is not None and cond.get("k") == "BinaryOperator" and cond.get("op") == ">" and _u(cond["c"][0]).get("d") == x:
@@ -77,7 +77,7 @@ def check_carry(P, R, tu):
             if r is not None and r.get("k") == "BinaryOperator" and r.get("op") == "=" and _u(r["c"][1]).get("k") == "CallExpr" \
                     and _u(r["c"][1]).get("callee") == lenf:
                 lenvar = _u(r["c"][0]).get("d")
-                subs = [s for s in walk(w["c"][1]) if s.get("k") == "CompoundAssignOperator" and s.get("op") == "-=" and
+                subs = [s for s in walk(w["c"][-1]) if s.get("k") == "CompoundAssignOperator" and s.get("op") == "-=" and
                         _u(s["c"][0]).get("d") == x and _u(s["c"][1]).get("d") == lenvar]
                 okf = len(subs) == 1
         if okf:
